@@ -2,8 +2,10 @@
 # usage: tools/try_seeded2.sh <patch.diff> <tier> <ID> [<ID> ...]
 # Like try_seeded.sh but on a scratch pair (/tmp/repo_mut = worktree of /repo, /tmp/verif_mut =
 # copy of /verif) so that /repo itself stays untouched (e.g. while its test suite runs).
+# Remove the pair afterwards: git -C /repo worktree remove --force /tmp/repo_mut; rm -rf /tmp/verif_mut
 patch=$1; tier=$2; shift 2
 rsync -a --exclude run --exclude build --exclude .git --exclude evidence /verif/ /tmp/verif_mut/
+[ -d /tmp/repo_mut ] || git -C /repo worktree add -q --detach /tmp/repo_mut HEAD || exit 2
 cd /tmp/repo_mut || exit 2
 git checkout -q -- . ; git checkout -q --detach $(git -C /repo rev-parse HEAD)
 git apply "$patch" || { echo "patch does not apply"; exit 2; }
